@@ -1974,6 +1974,15 @@ impl StorageEngine {
     }
     
     pub fn setrange(&self, db: DatabaseIndex, key: Key, offset: usize, value: Vec<u8>) -> Result<usize> {
+        // The string is zero-padded up to the offset: bound the result like Redis does (512 MB)
+        // instead of allocating (or overflowing on) whatever offset a client declares
+        const MAX_STRING_SIZE: usize = 512 * 1024 * 1024;
+        if offset > MAX_STRING_SIZE || offset + value.len() > MAX_STRING_SIZE {
+            return Err(FerrousError::Command(CommandError::Generic(
+                "string exceeds maximum allowed size (512MB)".to_string()
+            )));
+        }
+        
         let shard = self.get_shard(db, &key)?;
         let mut shard_guard = shard.write().unwrap();
         
